@@ -88,7 +88,7 @@ def run(ctx, out):
     n = 0
     try:
         json_opts = [dict(indent=i, sort_keys=s) for i in (None, 2, '\t') for s in (False, True)]
-        yaml_opts = [dict(), dict(indent=4), dict(width=20), dict(allow_unicode=False), dict(explicit_start=False), dict(explicit_end=True),
+        yaml_opts = [dict(default_flow_style=True, explicit_start=False), dict(default_flow_style=True, explicit_start=False, width=10), dict(), dict(indent=4), dict(width=20), dict(allow_unicode=False), dict(explicit_start=False), dict(explicit_end=True),
                      dict(default_style='"'), dict(default_style='|'), dict(default_flow_style=True), dict(default_flow_style=False),
                      dict(sort_keys=True), dict(default_flow_style=False, allow_unicode=False, explicit_end=True, sort_keys=True, indent=3)]
         n_types = 150 if not thorough else 1500
@@ -127,6 +127,12 @@ def run(ctx, out):
             zeta: int = 1
             alpha: _t.OrderedDict[str, int] = pane.field(default_factory=collections.OrderedDict)
             mid: str = 'm'
+        # text that another reader would take for a number / null / bool, at the top of a sequence, in flow style too
+        tricky = ['1e3', '12e1', '1.0e3', 'NaN', 'Infinity', '-Infinity', 'null', 'true', '0x10', '1_000', '~', '[1]', '{a: 1}', '1e3 ']
+        cases.append((('ordered',), _t.List[str], list(tricky)))
+        cases.append((('ordered',), _t.List[_t.Union[float, str]], list(tricky) + [1000.0, 2.5]))
+        cases.append((('ordered',), _t.Tuple[str, int, _t.Optional[str]], ('1e3', 7, None)))
+        cases.append((('ordered',), _t.List[_t.List[str]], [['1e3', 'NaN'], ['x']]))
         cases.append((('ordered',), _t.OrderedDict[str, int], od))
         cases.append((('ordered',), _t.List[_t.OrderedDict[str, int]], [od, collections.OrderedDict([('b', 1), ('a', 2)])]))
         cases.append((('ordered',), Ord, Ord(alpha=collections.OrderedDict([('y', 1), ('x', 2)]))))
